@@ -1,6 +1,8 @@
 #ifndef MEMBER_ASSIGNMENT_H
 #define MEMBER_ASSIGNMENT_H
 
+#include <string>
+
 struct ASTNode;
 class StatementExecutor;
 class Interpreter;
@@ -11,9 +13,12 @@ namespace AssignmentHandlers {
 
 // Stores an evaluated right-hand side in one struct member cell (a
 // struct_members entry or its flattened "obj.member" variable), in the field
-// that readers of the member's declared type use (string / floating / integer)
-void store_typed_value_in_member_cell(Variable &cell,
-                                      const TypedValue &typed_value);
+// that readers of the member's declared type use (string / floating / integer).
+// An integer cell is range-checked like a direct store to a variable of its
+// declared type (`target_name` names the target in the range error).
+void store_typed_value_in_member_cell(Interpreter &interpreter, Variable &cell,
+                                      const TypedValue &typed_value,
+                                      const std::string &target_name);
 
 // Member assignment execution
 void execute_member_assignment(StatementExecutor *executor,
